@@ -620,11 +620,11 @@ class Hdf5Saver:
         if state is not None:
             self.save(state, subpath + 'state')
         if listitems is not None:
-            self.save(state, subpath + 'listitems')
+            self.save(list(listitems), subpath + 'listitems')
         if dictitems is not None:
-            self.save(state, subpath + 'dictitems')
+            self.save(list(dictitems), subpath + 'dictitems')
         if state_setter is not None:
-            self.save(state, subpath + 'state_setter')
+            self.save(state_setter, subpath + 'state_setter')
         return h5gr
 
     # save_reduce is called directly from `save()`, not dispatched.
